@@ -66,6 +66,7 @@ type Result struct {
 	Routes      map[string][]byte
 	RoutesErr   map[string]error
 	Panic       string // non-empty when any stage panicked (stage: value + stack)
+	PanicStage  string // load-config | pipeline | validate | spec-<version> | routes-<engine>
 	Pipe        *pipeline.GleecePipeline
 }
 
@@ -75,6 +76,7 @@ func guard(stage string, res *Result, fn func()) {
 	defer func() {
 		if rec := recover(); rec != nil && res.Panic == "" {
 			res.Panic = fmt.Sprintf("%s: %v\n%s", stage, rec, debug.Stack())
+			res.PanicStage = stage
 		}
 	}()
 	fn()
